@@ -4,6 +4,7 @@ import (
 	"context"
 	"encoding/json"
 	"fmt"
+	"reflect"
 	"runtime"
 	"strings"
 	"time"
@@ -19,13 +20,18 @@ import (
 func init() { props["C13"] = runC13 }
 
 type c13Input struct {
-	Kind     string   `json:"kind"`
-	N        int      `json:"n"`
-	Fan      []int    `json:"fan"`   // per item: pipeline number (mux) or fan-out (dual)
-	Items    []uint64 `json:"items"`
-	Procs    int      `json:"gomaxprocs"`
-	DelaySeed int64   `json:"delay_seed"`
-	DelayPct int      `json:"delay_pct"` // percentage of items given a latency
+	Kind      string   `json:"kind"`
+	N         int      `json:"n"`
+	Fan       []int    `json:"fan"` // per item: pipeline number (mux) or fan-out (dual)
+	Items     []uint64 `json:"items"`
+	Procs     int      `json:"gomaxprocs"`
+	DelaySeed int64    `json:"delay_seed"`
+	DelayPct  int      `json:"delay_pct"` // percentage of items given a latency
+	// queue / batch: the stage is run up to Reps times on the same input and the first run whose flattened output is not
+	// the input is the one reported (schedules that show only once in a few hundred runs)
+	Reps int `json:"reps,omitempty"`
+	// batch: the 1 microsecond timeout the remote backends pass, instead of 2 ms
+	ProdTimeout bool `json:"prod_timeout,omitempty"`
 }
 
 type c13Obs struct {
@@ -261,7 +267,11 @@ func execC13(in c13Input) c13Obs {
 			}
 			close(req)
 		}()
-		res := gdbi.LookupBatcher(req, in.N, 2*time.Millisecond)
+		to := 2 * time.Millisecond
+		if in.ProdTimeout {
+			to = time.Microsecond
+		}
+		res := gdbi.LookupBatcher(req, in.N, to)
 		out := [][]uint64{}
 		timer := time.After(c13Deadline)
 		for {
@@ -306,7 +316,7 @@ func c13Coq(in c13Input, ob c13Obs) string {
 func runC13(ctx *Ctx) error {
 	ctx.EvalMod = "Eval_C13"
 	ctx.CaseTy = "c13_case"
-	ctx.Rule = "kinds {marshal,unmarshal,queue,dual,mux,batch} x worker/batch/pipeline counts x lengths around n, 10n, buffer sizes x seeded latency patterns x GOMAXPROCS {1,4,16}; non-trivial = at least 2 items and (for pools) more items than workers; distinct by (kind,n,items,fan)"
+	ctx.Rule = "kinds {marshal,unmarshal,queue,dual,mux,batch} x worker/batch/pipeline counts x lengths around n, 10n, buffer sizes x seeded latency patterns x GOMAXPROCS {1,4,16}; plus a 2000-item burst through the jump queue (3000 runs) and a 1003-item input through the lookup batcher with batch size 100 and the 1 microsecond timeout of the remote backends (400 runs), the first run whose output is not the input being the one judged; non-trivial = at least 2 items and (for pools) more items than workers; distinct by (kind,n,items,fan)"
 	var inputs []c13Input
 	if ctx.Replay != nil {
 		var in c13Input
@@ -371,6 +381,15 @@ func runC13(ctx *Ctx) error {
 				}
 			}
 		}
+		// schedules that show once in a few hundred runs: a long burst through the queue, and a batcher input that is not a
+		// multiple of the batch size under the timeout the remote backends use
+		{
+			q := mk("queue", 1, 2000)
+			q.Procs, q.DelayPct, q.Reps = 16, 0, ctx.Pick(3000, 20000)
+			b := mk("batch", 100, 1003)
+			b.Procs, b.DelayPct, b.Reps, b.ProdTimeout = 16, 0, ctx.Pick(400, 2000), true
+			inputs = append(inputs, q, b)
+		}
 		extra := ctx.Pick(40, 400)
 		kinds := []string{"marshal", "unmarshal", "queue", "dual", "mux", "batch"}
 		for i := 0; i < extra; i++ {
@@ -384,6 +403,16 @@ func runC13(ctx *Ctx) error {
 	// run sequentially: GOMAXPROCS is process-wide
 	for _, in := range inputs {
 		ob := execC13(in)
+		for r := 1; r < in.Reps; r++ {
+			flat := []uint64{}
+			for _, b := range ob.Out {
+				flat = append(flat, b...)
+			}
+			if !ob.Closed || !reflect.DeepEqual(flat, in.Items) {
+				break
+			}
+			ob = execC13(in)
+		}
 		nt := len(in.Items) >= 2
 		if in.Kind == "marshal" || in.Kind == "unmarshal" {
 			nt = len(in.Items) > in.N
